@@ -87,14 +87,18 @@ def make_value(it, T, hint):
 
 
 def resolve_class(it, qualname):
-    modname, _, cname = qualname.rpartition('.')
-    m = it.program.module(modname)
-    if m is None:
-        raise EngineError('module %s not found' % modname)
-    v = it.module_get(m, cname)
-    if not isinstance(v, ClassInfo):
-        raise EngineError('%s is not a class' % qualname)
-    return v
+    parts = qualname.split('.')
+    for i in range(len(parts) - 1, 0, -1):
+        m = it.program.module('.'.join(parts[:i]))
+        if m is None:
+            continue
+        v = it.module_get(m, parts[i])
+        for nm in parts[i + 1:]:
+            v = it.getattr(v, nm)
+        if not isinstance(v, ClassInfo):
+            raise EngineError('%s is not a class' % qualname)
+        return v
+    raise EngineError('class %s not found' % qualname)
 
 
 def new_obj(it, cls_qualname, fields, tag='', is_input=True):
@@ -176,16 +180,22 @@ class Contract(object):
         table = {}
         for src in self.olds:
             if src not in table:
-                table[src] = it.spec_eval(src, env)
+                try:
+                    table[src] = it.spec_eval(src, env)
+                except EngineError as e:
+                    table[src] = e        # undefined in this pre-state; an error only if the clause uses it
         env.vars['old'] = SpecFn('old', None)
         env.vars['__old__'] = table
         return table
 
-    def _modifies_paths(self):
+    def _modifies_paths(self, typed=False):
         out = []
         for m in self.modifies:
+            T = None
+            if isinstance(m, tuple):
+                m, T = m
             head, _, field = m.rpartition('.')
-            out.append((head, field))
+            out.append((head, field, T) if typed else (head, field))
         return out
 
     # -- use at a call site (modular: the body is NOT looked at) ---------------
@@ -202,12 +212,15 @@ class Contract(object):
             ctx.assume(t)
         self._eval_olds(it, env)
         # havoc the frame
-        for head, field in self._modifies_paths():
+        for head, field, T in self._modifies_paths(typed=True):
             o = it.spec_eval(head, env)
             if isinstance(o, Obj):
                 cur = o.fields.get(field)
-                nv = it.fresh_like(cur, '%s.%s' % (head, field))
-                if nv is None and cur is not None:
+                if T is not None:
+                    nv = make_value(it, T, '%s.%s' % (head, field))
+                else:
+                    nv = it.fresh_like(cur, '%s.%s' % (head, field))
+                if nv is None and cur is not None and T is None:
                     raise EngineError('cannot havoc %s.%s of kind %r' % (head, field, cur))
                 o.fields[field] = nv
                 o.written.add(field)
@@ -567,7 +580,15 @@ def resolve_function(it, qualname):
         raise EngineError('%s is not a function' % qualname)
     owner = None
     if clsnode is not None:
-        owner = it.module_get(m, clsnode.name)
+        # walk the (possibly nested) class path
+        parts = qualname[len(m.name) + 1:].split('.')
+        owner = it.module_get(m, parts[0])
+        for nm in parts[1:]:
+            if owner.node is clsnode:
+                break
+            owner = it.getattr(owner, nm)
+            if not isinstance(owner, ClassInfo):
+                raise EngineError('%s: %s is not a class' % (qualname, nm))
     f = it.make_func(node, m, None, owner, qualname)
     return f
 
